@@ -12,7 +12,8 @@ EXPLANATION = (
     "the entry, close_all clears the map; (R4) io::Error NotFound/UnexpectedEof map to "
     "FileNotFound/InputPastEndOfFile and the readers return UnexpectedEof behind their eof() guard; "
     "(R5) console and file forms of INPUT / LINE INPUT call the same Input method; (R6) per open mode: "
-    "INPUT never creates, APPEND appends and never truncates, OUTPUT creates.")
+    "INPUT never creates, APPEND appends and never truncates, OUTPUT creates; (R7) GET decodes every "
+    "FIELD list from the start of the record.")
 NOT_DECIDED = ["read-back equality of file contents, exactness of EOF, record contents (value-level)"]
 
 RE = "rusty_basic::interpreter::error::RuntimeError"
@@ -299,6 +300,56 @@ def r6_open_modes(ctx, rule="C18.R6"):
     ctx.require(rule, 8)
 
 
+def r7_record_layout(ctx, rule="C18.R7"):
+    """GET decodes every FIELD list of the handle from the start of the record: the running offset is
+    re-initialised to 0 inside the loop over the field lists, and advanced by each field's width."""
+    prog = ctx.prog
+    fs = [f for f in prog.fns.values() if "built_ins::get::run" in f.id and f.kind == "fn"]
+    if len(fs) != 1:
+        raise CheckError("anchor built_ins::get::run")
+    f = fs[0]
+    body = f.body
+
+    def on_cycle(b):
+        return b in {x for s2 in body.succ(b) for x in body.reachable(s2)}
+    # the offset local: used as the start of the Range that slices the record bytes
+    pv = mir.Prov(body)
+    starts = set()
+    for blk in body.blocks:
+        for st in blk["s"]:
+            if st["k"] == "assign" and st["r"]["k"] == "agg" and st["r"].get("adt", "").endswith("ops::range::Range") \
+                    and st["r"]["ops"]:
+                o = mir.strip_all(pv.of_operand(st["r"]["ops"][0]))
+                if o[0] == "local":
+                    starts.add(o[1])
+    if len(starts) != 1:
+        raise CheckError("GET: offset variable not recognised (%s)" % sorted(starts))
+    S = starts.pop()
+    zero_blocks = []
+    adv = False
+    for b, blk in enumerate(body.blocks):
+        if blk.get("c"):
+            continue
+        for st in blk["s"]:
+            if st["k"] == "assign" and st["p"] == [S, []]:
+                k = st["r"].get("o", {}).get("k") if st["r"]["k"] == "use" else None
+                if k and k.get("int") == 0:
+                    zero_blocks.append(b)
+                else:
+                    o = pv._of_rvalue(st["r"], 0)
+                    txt = mir.short_origin(o)
+                    if "Add" in str(o) and "width" in str(o) or "Add" in str(o):
+                        adv = True
+    ctx.decide(len(zero_blocks) == 1 and on_cycle(zero_blocks[0]), rule, rule + ":GET:offset-restarts-per-field-list",
+               f.loc, "offset := 0 inside the loop over field lists",
+               "GET does not restart the record offset for each FIELD list (offset := 0 in blocks %s, on a loop: %s): "
+               "the variables of a second FIELD statement are read from the wrong bytes"
+               % (zero_blocks, [on_cycle(b) for b in zero_blocks]))
+    ctx.decide(adv, rule, rule + ":GET:offset-advances-by-width", f.loc, "offset += width",
+               "GET no longer advances the offset by each field's width")
+    ctx.require(rule, 2)
+
+
 def run(ctx):
     common.install(ctx)
     r1_open_guard(ctx)
@@ -307,3 +358,4 @@ def run(ctx):
     r4_error_mapping(ctx)
     r5_console_file_agree(ctx)
     r6_open_modes(ctx)
+    r7_record_layout(ctx)
